@@ -128,7 +128,7 @@ def gen_cases(run, thorough):
 
     heavy_n = lambda q: rng.choice([0, 1, 2, 3, 50, 700, 3000, 9000]) if q >= 10 else rng.choice([0, 1, 2, 3, 10, 100, 1000, 5000, 20000, 70000])
     sd = lambda: rng.randrange(1, 1 << 30)
-    mult = 3 if thorough else 1
+    mult = 8 if thorough else 1
     # A. every quality (and out-of-range values) x every data kind
     for q in [-3, 0, 1, 2, 3, 4, 5, 6, 7, 8, 9, 10, 11, 12, 99]:
         for kind in KINDS:
@@ -208,6 +208,14 @@ def gen_cases(run, thorough):
             qs, ws, lb = sanitized(p)
             for d in (-1, 0, 1):
                 add("incompressible-block-boundary", p, "rand", (1 << lb) + d, sd(), rng.choice(["one", "chunks"]))
+    # H. thorough only: inputs beyond 2^24 bytes (several maximal meta-blocks, lgblock 24 blocks, quality 0/1 fragments
+    #    larger than MLEN can express); judged by the two reference decoders only (NOHEX: too large for the extracted D)
+    if thorough:
+        for p, kind, n in (([(1, 0), (2, 24)], "rand", (1 << 24) + 5000), ([(1, 1), (6, 1), (2, 30)], "rand", (1 << 24) + 70001),
+                           ([(1, 0), (6, 1), (2, 28)], "mix", (1 << 25) + 3), ([(1, 2), (2, 24)], "rand", (1 << 24) + 1),
+                           ([(1, 4), (2, 24), (3, 24)], "html", (1 << 25) + 12345), ([(1, 5), (2, 24), (3, 24)], "rand", (1 << 24) + 99),
+                           ([(1, 9), (6, 1), (2, 26), (3, 24)], "text", (1 << 24) + 777), ([(1, 7), (2, 22), (167, 1)], "far4194288", 1 << 24)):
+            add("beyond-2^24", p, kind, n, sd(), rng.choice(["one", "chunks"]), nohex=True)
     rng.shuffle(cases)
     return cases
 
@@ -226,6 +234,63 @@ def parse_r(line):
             k, v = x.split("=", 1)
             d[k] = v
     return d
+
+
+def parse_stored(hexs):
+    """(lgwin, large, [MLEN of each uncompressed meta-block]) when the stream consists of uncompressed meta-blocks
+    followed by the empty last meta-block only, else None (python twin of nothing: only finds the chunk boundaries
+    so that the model of the stored-stream writer can be asked for the same chunks)"""
+    b = bytes.fromhex(hexs)
+    nbits = 8 * len(b)
+    pos = [0]
+
+    def rd(n):
+        if pos[0] + n > nbits:
+            raise ValueError
+        v = 0
+        for i in range(n):
+            v |= ((b[(pos[0] + i) >> 3] >> ((pos[0] + i) & 7)) & 1) << i
+        pos[0] += n
+        return v
+    try:
+        large = False
+        if rd(1) == 0:
+            w = 16
+        else:
+            n = rd(3)
+            if n:
+                w = 17 + n
+            else:
+                m = rd(3)
+                if m == 0:
+                    w = 17
+                elif m == 1:
+                    if rd(1):
+                        return None
+                    w, large = rd(6), True
+                else:
+                    w = 8 + m
+        lens, data = [], bytearray()
+        while True:
+            if rd(1):           # ISLAST
+                if rd(1) != 1:
+                    return None
+                break
+            code = rd(2)
+            if code == 3:
+                return None     # metadata
+            mlen = rd(4 * (4 + code)) + 1
+            if rd(1) != 1:
+                return None     # compressed
+            pos[0] = (pos[0] + 7) & ~7
+            if pos[0] + 8 * mlen > nbits:
+                return None
+            data += b[pos[0] >> 3:(pos[0] >> 3) + mlen]
+            pos[0] += 8 * mlen
+            lens.append(mlen)
+        return w, large, lens, data.hex()
+    except ValueError:
+        return None
 
 
 def mutants(rng, hexs, k):
@@ -494,7 +559,30 @@ def check(run):
                 nontriv.add(c)
             if len(selftest_pool) < (400 if thorough else 150) and len(f["out"]) <= 1400 and (n > 0 or rng.random() < 0.1):
                 selftest_pool.append((rng.choice([1, 1, 1, 0]), f["out"]))
-    run.note("streams: %d cases, %s" % (len(cases), stats))
+    # the stored-stream writer model (model/MetaBlockHeader.v + store_chunks, theorem C01_stream_roundtrip_stored)
+    # against the real writers: every emitted stream that consists of uncompressed meta-blocks + the empty last one
+    sreq, sidx = [], []
+    for k, ((c, meta), o) in enumerate(zip(cases, impl)):
+        f = parse_r(o)
+        if not f or f.get("st") != "ok" or f.get("out", "-").startswith("-") or len(f["out"]) > 700000:
+            continue
+        ps = parse_stored(f["out"])
+        if ps and ps[2]:
+            w, large, lens, data = ps
+            sreq.append("SC %d %d %s %s" % (w, int(large), ",".join(str(x) for x in lens), data))
+            sidx.append(k)
+    stored_stats = {"stored_streams": len(sreq), "writer_model_agrees": 0, "writer_model_differs": 0}
+    for k, req, m in zip(sidx, sreq, vlib.run_lines(model, sreq, timeout=600) if sreq else []):
+        f = parse_r(impl[k])
+        if m == f["out"]:
+            stored_stats["writer_model_agrees"] += 1
+        else:
+            stored_stats["writer_model_differs"] += 1
+            case = dict(cases[k][1])
+            case.update({"script": cases[k][0], "status": "stored-writer"})
+            report("correspondence", case, {"impl": f["out"][:300], "model": m[:300]},
+                   broken="stored-stream writer: model/MetaBlockHeader.v + store_chunks vs the bytes the encoder emitted for uncompressed meta-blocks", found_input=False)
+    run.note("streams: %d cases, %s; stored-stream writer model: %s" % (len(cases), stats, stored_stats))
     # ------------------------------------------------------------------ model correspondence: configuration sweep, WrapPosition, ring buffer
     cfg_lines = []
     for q in list(range(-3, 14)) + [99, (1 << 31) - 1, -(1 << 31)]:
@@ -626,6 +714,7 @@ def check(run):
                        "input whose stream contains at least one compressed meta-block and was decoded to the input by both reference decoders and by D")
     run.cov["traces_validated_against_impl"] = stats["ok"]
     run.cov["stream_stats"] = stats
+    run.cov["stored_stream_writer_model"] = stored_stats
     run.cov["stream_calls_total"] = tot_calls
     run.cov["histograms"] = hist
     run.cov["reached_classes"] = dict(sorted(reached.items()))
